@@ -8,6 +8,12 @@ CHECKS = {
  "C01": dict(tech="TLC trace validation of emitted BASIC09 against Color BASIC semantics (TLA+ machines for both languages; inputs enumerated by a TLA+ generator machine)",
    text="TLC enumerates every expression of the fragment up to an operator bound (GenExpr.tla), the real convert() output is lexed and handed back to TLC, which parses it under BASIC09 precedence/typing (B09.tla), runs source and target on one abstract machine (Machine.tla) for all input scripts of a small value domain and compares assignments, branches taken and operator trees (Refine.tla, Trace_C01.tla). Small-scope exhaustive, random beyond.",
    note="Trusted: TLC/SANY, my reading of Color BASIC and BASIC09 semantics (strict/permissive split, DESIGN 4.1), the lexer shims. Exact rationals in a tiny domain; floating point rounding and transcendental functions are not modelled (uninterpreted).", ref="5 C01"),
+ "C02": dict(tech="TLC trace validation: source and emitted program run in lock step on one TLA+ machine; programs from a TLA+ generator machine",
+   text="GenProg.tla builds programs over a control-flow palette (IF in ten shapes incl. ELSE IF chains, FOR/NEXT with STEP / bare NEXT / NEXT lists, GOTO, GOSUB/RETURN, ON..GOTO/GOSUB, END, STOP) with lexically nested loops; every program is converted by the real tool under the four filter x initialise settings and Trace_Refine.tla compares the observable event sequences (assignments that change a value, output, halt) of source and target for every input value.",
+   note="Trusted: as C01. FOR loops that BASIC09 might skip (start beyond end), ON selectors out of range and reads of never-assigned variables without pre-initialisation are unjudged, not violations. Fuel-bounded runs (source 150 steps).", ref="5 C02"),
+ "C05": dict(tech="TLC trace validation of call sequences: convertible-function calls of source and target compared in order with argument values; device values scripted",
+   text="GenExpr.tla enumerates nestings of the convertible functions inside each other, inside built-in functions and arithmetic; each nesting is placed in 28 statement contexts (assignment, array target/subscript, IF / IF-ELSE / ELSE-IF, FOR bounds, PRINT / PRINT@, ON, READ / INPUT targets, WIDTH, device operands, re-executed lines). Trace_Refine.tla runs both programs and compares the sequence of calls (name, argument values), rejects reads of unassigned temporaries and lost operands.",
+   note="Trusted: as C01. Library procedures behave as the Color BASIC function they stand for (assume/guarantee, DESIGN 2.3).", ref="5 C05"),
 }
 NA_REASON = "check not built yet in this round (work in progress; see DESIGN.md Appendix D)"
 m = {"version": 1, "setup_cmd": "cd /verif && ./setup.sh",
